@@ -11,6 +11,7 @@ pub fn wildcard_match(wild: &str, tame: &str) -> bool {
     let mut wild_iter: Peekable<Chars> = wild.chars().peekable();
     let mut tame_iter: Peekable<Chars> = tame.chars().peekable();
     let mut after_last_wild: Option<Peekable<Chars>> = None;
+    let mut after_last_tame: Option<Peekable<Chars>> = None;
 
     loop {
         let tame_char = tame_iter.peek().copied();
@@ -37,38 +38,42 @@ pub fn wildcard_match(wild: &str, tame: &str) -> bool {
         } else {
             // If the tame string has more characters
 
+            if wild_char == Some('*') {
+                // If the wild character is a wildcard character, store the position after it in the wild string and the
+                //   position in the tame string from which it starts matching (initially matching zero characters)
+                // This is needed in cases such as "abcd" matching "a*d"
+                // A wildcard is always a wildcard, even if the tame character happens to be `*` as well
+                wild_iter.next();
+                after_last_wild = Some(wild_iter.clone());
+                after_last_tame = Some(tame_iter.clone());
+                continue;
+            }
+
             if tame_char != wild_char {
                 // If the tame character and the wild character do not match, the only way they can be identical is if there
-                //   was previously or is currently a wildcard character
+                //   was previously a wildcard character
                 // For example, "abcd" matches "abc*" and "a*"
-                if wild_char == Some('*') {
-                    // If the wild character is a wildcard character, store the position after it
-                    // This is needed in cases such as "abcd" matching "a*d"
-                    wild_iter.next();
-                    after_last_wild = Some(wild_iter.clone());
-                    continue;
-                } else if let Some(after_last_wild_iter) = &after_last_wild {
-                    // If there is not a new wildcard character, but there has previously been one, move the iterator to
-                    //   immediately after the last wildcard character, and store the next character.
+                if let (Some(after_last_wild_iter), Some(after_last_tame_iter)) =
+                    (&after_last_wild, &mut after_last_tame)
+                {
+                    // Go back to immediately after the last wildcard character, let that wildcard match one more
+                    //   character of the tame string than on the previous attempt, and try again from there
+                    // For example, "aab" matches "*ab" once the wildcard has matched the first "a"
                     wild_iter = after_last_wild_iter.clone();
-                    let wild_char = wild_iter.peek().copied();
 
-                    if wild_char.is_none() {
+                    if wild_iter.peek().is_none() {
                         // If there are no more wild characters, this means that the last character of the wild string was a
                         //   wildcard character and the strings matched up to that point. Therefore, the strings match.
                         // For example, "abcd" matches "a*"
                         return true;
-                    } else if tame_char == wild_char {
-                        // If the characters do match, the end of the wildcard segment must have been reached, so increment the
-                        //   iterator.
-                        wild_iter.next();
                     }
 
-                    tame_iter.next();
+                    after_last_tame_iter.next();
+                    tame_iter = after_last_tame_iter.clone();
                     continue;
                 } else {
-                    // If the characters do not match, are not wildcard, do not follow a wildcard, and do not complete a wildcard
-                    //   segment, then the strings do not match.
+                    // If the characters do not match, are not wildcard, and do not follow a wildcard, then the strings
+                    //   do not match.
                     return false;
                 }
             }
